@@ -324,3 +324,8 @@ Theorem C06_no_param_writes : forall f, In f ["empty_crossover"; "binomialGA"; "
     "proportional_selection"; "rank_selection"; "tournament_selection"]%string -> In f no_param_writes.
 Proof. intros f H. repeat (destruct H as [<-|H]; [vm_compute; tauto|]). destruct H. Qed.
 Print Assumptions C06_no_param_writes.
+
+Theorem C06_code_uniform_tournament_crossover : forall ps fitness rank ds, valid_draws ds ->
+  py_uniform_tournament_crossover ps fitness rank ds = uniform_tournament_crossover ps fitness rank ds.
+Proof. exact code_uniform_tournament_crossover. Qed.
+Print Assumptions C06_code_uniform_tournament_crossover.
